@@ -97,7 +97,7 @@ fn modules_for(pid: &str) -> &'static [&'static str] {
         "C12" => &["color"],
         "C13" => &["conv"],
         "C14" => &["font"],
-        "C15" => &["text"],
+        "C15" => &["text", "font"],
         "C16" => &["rect"],
         "C17" => &["line", "thick"],
         "C18" => &["circle", "ellipse", "rrect", "sector"],
